@@ -200,8 +200,19 @@ def compare(J, B, N, died=None):
         viol.append({"clause": clause, "case": case, "observed": observed, "tolerance": REL if clause == "value_differs" else None,
                      "case_id": cid})
     ids = list(J.keys()) + [k for k in N.keys() if k not in J] + [k for k in B.keys() if k not in J and k not in N]
+
+    def failed_builds(X):
+        return {r["id"].split("|")[1]: r for r in X.values() if r["id"].endswith("|*|build|-") and r["st"] == "exc"}
+    fb = [failed_builds(J), failed_builds(B), failed_builds(N)]
+
+    def get(X, k, cid):
+        r = X.get(cid)
+        if r is None and cid.startswith("e|") and cid.split("|")[1] in fb[k]:
+            f = fb[k][cid.split("|")[1]]        # the object could not even be constructed in this mode
+            r = {"id": cid, "st": "exc", "exc": f["exc"], "msg": "while constructing the object: " + str(f.get("msg")), "nb": f.get("nb", False)}
+        return r
     for cid in ids:
-        j, b, n = J.get(cid), B.get(cid), N.get(cid)
+        j, b, n = get(J, 0, cid), get(B, 1, cid), get(N, 2, cid)
         missing = [m for m, r in (("jit", j), ("boundscheck", b), ("nojit", n)) if r is None]
         if missing:
             if not all(died.get(m) for m in missing):
